@@ -146,7 +146,7 @@ def run(ctx):
     ]
     nw = max(1, NCPU // max(1, min(4, NCPU // 4)))
 
-    write_cfg(d / "UrlGen_run.cfg", "USpec", {"MaxLen": 6 if q else 7, "Rests": '{"host", "userinfo", "opaque"}' if q else ALL_RESTS},
+    write_cfg(d / "UrlGen_run.cfg", "USpec", {"MaxLen": 6 if q else 8, "Rests": '{"host", "userinfo", "opaque"}' if q else ALL_RESTS},
               invariants=["UEmit"] + URL_INV)
     write_cfg(d / "ServeMC_run.cfg", "HSpec", serve_consts(2 if q else 3, 1), invariants=SERVE_INV)
     write_cfg(d / "ServeGen_run.cfg", "GSpec", serve_consts(2 if q else 3, 1), invariants=["HEmit", "Stateless"])
@@ -159,7 +159,7 @@ def run(ctx):
     write_cfg(d / "SigMC_run.cfg", "SSpec", sig_consts(5 if q else 7), invariants=SIG_INV)
     write_cfg(d / "SigGen_run.cfg", "SGSpec", sig_consts(2 if q else 3), invariants=["SEmit"] + SIG_INV)
     write_cfg(d / "ResMC_run.cfg", "RSpec", res_consts(6 if q else 8, big=not q), invariants=RES_INV + ["PureLemmasOnce"], properties=RES_PROP)
-    write_cfg(d / "ResGen_run.cfg", "GSpec", res_consts(3 if q else 5, big=not q), invariants=["REmit"] + RES_INV)
+    write_cfg(d / "ResGen_run.cfg", "GSpec", res_consts(3 if q else 6, big=not q), invariants=["REmit"] + RES_INV)
     write_cfg(d / "FakesMC_run.cfg", "FSpec", fake_consts(5 if q else 6, "{1, 2, 3}", "{3}"), invariants=FAKE_INV)
     write_cfg(d / "FakesGen_run.cfg", "FGSpec", fake_consts(3 if q else 4), invariants=["FEmit"] + FAKE_INV)
 
